@@ -71,12 +71,22 @@ structure StatusRec where
   futExc : Bool := false
 deriving Repr, Inhabited
 
+/-- `LifePath cur log`: the transition log is a path in the generated transition table from `idle`
+    to the current state.  EState carries a proof of it, so the state can only ever be changed by
+    extending the log along an edge of the table (what LoggingPropertyMachine.__set__ enforces). -/
+inductive LifePath : St → List (St × St) → Prop where
+  | nil : LifePath .idle []
+  | snoc {cur : St} {log : List (St × St)} {new : St} :
+      LifePath cur log → (Src.transitions cur).contains new = true → LifePath new (log ++ [(cur, new)])
+
 structure EState where
   devSpecs : List DevSpec := []
   devs : List (String × DevState) := []
   recordInterruptions : Bool := false
   -- RunEngine attributes
   state : St := .idle
+  trans : List (St × St) := []
+  lifeOk : LifePath state trans := by exact LifePath.nil
   planStack : List Gen := []            -- top first
   respStack : List Resp := []           -- top first
   msgCache : Option (List Msg) := some []   -- oldest first
@@ -116,13 +126,13 @@ structure EState where
   nCreated : Nat := 0
   -- monotone logs
   msgs : List Msg := []
-  trans : List (St × St) := []
   refused : List String := []
   docs : List Doc := []
   calls : List Call := []
   yields : List (Nat × Inp) := []
   arrivals : List String := []
-deriving Inhabited
+
+instance : Inhabited EState := ⟨{}⟩
 
 /-! ## small helpers -/
 
@@ -143,8 +153,8 @@ def nextMode (s : EState) (n : String) (op : String) : String × EState :=
 
 /-- the state setter of LoggingPropertyMachine: refuses moves that are not in the generated table -/
 def setState (s : EState) (new : St) : Except Exc EState :=
-  if (Src.transitions s.state).contains new then
-    .ok { s with state := new, trans := s.trans ++ [(s.state, new)] }
+  if h : (Src.transitions s.state).contains new = true then
+    .ok { s with state := new, trans := s.trans ++ [(s.state, new)], lifeOk := LifePath.snoc s.lifeOk h }
   else .error .transitionError
 
 def Gen.pendingMid : Gen → Option Nat
@@ -562,8 +572,8 @@ def closeGen (s : EState) (g : Gen) : EState :=
   | some mid, _ => { s with yields := s.yields ++ [(mid, .throw .genExit)] }
   | none, _ => s
 
-/-- the outer `finally` of `_run` -/
-def cleanup (s : EState) : EState :=
+/-- the outer `finally` of `_run`, up to (not including) the final `self._state = "idle"` -/
+def cleanupBody (s : EState) : EState :=
   let reason := if s.exitReason == "" then s.reason else s.exitReason
   let s := { s with pardon := true }
   let s := if Src.finallyStopsMovables then stopMovables s else s
@@ -576,11 +586,14 @@ def cleanup (s : EState) : EState :=
       forBundlers s (fun s b => if b.runOpen then closeRunDoc s b s.exitStatus.name reason else (s, b))
     else s
   let s := { s with bundlers := [] }
-  let s := s.planStack.foldl closeGen s
-  let s := match setState s .idle with
-    | .ok s => s
-    | .error e => { s with cleanupExc := some e }
-  s
+  s.planStack.foldl closeGen s
+
+/-- the outer `finally` of `_run` -/
+def cleanup (s : EState) : EState :=
+  let s := cleanupBody s
+  match setState s .idle with
+  | .ok s => s
+  | .error e => { s with cleanupExc := some e }
 
 /-- the task ends: compute its result and fire the done-callback (sets the blocking event) -/
 def finishTask (s : EState) : EState :=
